@@ -39,6 +39,11 @@ fn stage_exec(ctx: &Ctx, i: usize, s: &Stage, dir: &Path) -> Exec {
     ])
 }
 
+/// A pass-through command (identity map, no trailer bookkeeping needed by the caller), built without a Ctx.
+fn stage_exec_raw(vchild: &std::path::Path, j: usize, dir: &Path, attempt: usize) -> Exec {
+    Exec::cmd(vchild).args(&["stage", &j.to_string(), "1", "0", "0", "0", "0"]).arg(dir.join(format!("cstage{}-{}.rep", attempt, j)))
+}
+
 fn expected_output(input: &[u8], stages: &[Stage]) -> Vec<u8> {
     let mut data = input.to_vec();
     for (i, s) in stages.iter().enumerate() {
@@ -257,6 +262,15 @@ fn c13_case(ctx: &mut Ctx, rng: &mut Rng, i: u64) {
         ctx.count("pipelines_run_from_a_clone", 1);
     }
     let dbg = format!("{:?}", pl);
+    // a caller that has closed some of its own standard descriptors (only where the pipeline does not inherit them)
+    let layout = if stdin_kind != "inherit" && stdout_kind != "inherit" && stderr_kind != "inherit" && rng.chance(200) { rng.range(1, 7) as u8 } else { 0 };
+    let holes = if layout != 0 {
+        ctx.count("pipelines_run_with_parent_standard_descriptors_closed", 1);
+        shape.push_str(&format!("+parent-fds-closed:{:03b}", layout));
+        Some(spawn::StdHoles::make(layout))
+    } else {
+        None
+    };
     let mut got_out: Option<Vec<u8>> = None;
     let mut got_err: Option<Vec<u8>> = None;
     let mut status: Option<ExitStatus> = None;
@@ -330,6 +344,7 @@ fn c13_case(ctx: &mut Ctx, rng: &mut Rng, i: u64) {
         }
         Ok(())
     });
+    drop(holes);
     let evs = m.events();
     let pids = spawn::forked_pids(&evs);
     let left = spawn::surviving(&pids);
@@ -538,6 +553,14 @@ fn c14_case(ctx: &mut Ctx, n: usize, kfail: usize, stdin_kind: &str, term: &str,
     }
     // the caller's thread may have signals blocked (it handles them with sigwait / signalfd): that is its business and
     // not the commands'
+    // ... or have closed some of its own standard descriptors (where the pipeline does not inherit its stdin from it)
+    let layout: u8 = if stdin_kind != "inherit" && (n * 7 + kfail * 3 + term.len() + earlier.len()) % 5 == 0 { [1u8, 3, 5, 7, 2, 6, 4][(n + kfail + term.len()) % 7] } else { 0 };
+    let holes = if layout != 0 {
+        ctx.count("attempts_with_parent_standard_descriptors_closed", 1);
+        Some(spawn::StdHoles::make(layout))
+    } else {
+        None
+    };
     let caller_blocks_sigpipe = (n + kfail + term.len()) % 2 == 1;
     let mut old_mask: libc::sigset_t = unsafe { std::mem::zeroed() };
     if caller_blocks_sigpipe {
@@ -563,11 +586,12 @@ fn c14_case(ctx: &mut Ctx, n: usize, kfail: usize, stdin_kind: &str, term: &str,
     if caller_blocks_sigpipe {
         unsafe { libc::pthread_sigmask(libc::SIG_SETMASK, &old_mask, std::ptr::null_mut()) };
     }
+    drop(holes);
     let evs = m.events();
     let forks = spawn::forked_pids(&evs);
     // state of the started commands at the moment the call returned
     let at_return: Vec<(i32, Option<char>)> = forks.iter().map(|&p| (p, crate::inspect::proc_state(p))).collect();
-    let tag = format!("n{}/k{}/{}/{}/{}{}{}", n, kfail, stdin_kind, term, earlier, if detached { "/detached" } else { "" }, if via_clone { "/clone" } else { "" });
+    let tag = format!("n{}/k{}/{}/{}/{}{}{}{}", n, kfail, stdin_kind, term, earlier, if detached { "/detached" } else { "" }, if via_clone { "/clone" } else { "" }, if layout != 0 { format!("/parent-fds-closed:{:03b}", layout) } else { String::new() });
     ctx.count("tuples_run", 1);
     ctx.distinct(&tag);
     let w = |extra: J| J::obj().set("case", J::s(&tag)).set("result", J::s(&format!("{:?}", m.result.as_ref().map(|r| r.as_ref().map_err(|e| e.to_string()))))).set("events_tail", J::arr_s(&ilog::fmt_tail(&evs.iter().filter(|e| e.kind != k::READ && e.kind != k::WRITE && e.kind != k::FCNTL).cloned().collect::<Vec<_>>(), 30))).set("detail", extra);
@@ -730,6 +754,83 @@ pub fn run_c14(ctx: &mut Ctx) {
             ctx.sample(J::s(&format!("n={} k={} stdin={} terminator={} earlier={} detached={} via_clone={}", n, kf, s, t, e, det, cl)));
         }
         c14_case(ctx, n, kf, s, t, e, det, cl);
+    });
+    // other threads of the caller start unrelated long-running commands while a pipeline fails to start: the attempt
+    // is over when its own commands are dealt with; every unrelated command (each lives 30 s) is still running then
+    let ncc = ctx.n(40, 1000);
+    ctx.family("concurrent-with-unrelated-spawns", ncc, |ctx, rng, i| {
+        use std::sync::atomic::{AtomicBool, Ordering::SeqCst};
+        use std::sync::{Arc, Mutex};
+        run::begin_case();
+        let dir = ctx.scratch("c14c");
+        crate::plan::seed(rng.next());
+        crate::plan::add(crate::plan::Rule { kind: k::PIPE, scope: crate::plan::SCOPE_PARENT, nth: 0, fd: -1, act: crate::plan::ACT_DELAY_AFTER, val: -400, prob: 500 });
+        let lingerers: Arc<Mutex<Vec<i32>>> = Arc::new(Mutex::new(vec![]));
+        let stop = Arc::new(AtomicBool::new(false));
+        let vchild = ctx.vchild.clone();
+        let attempts = rng.range(4, 10) as usize;
+        let terms: Vec<&str> = (0..attempts).map(|_| *rng.pick(&["popen", "join", "capture", "communicate", "stream_stdout"])).collect();
+        let dir2 = dir.clone();
+        let m = run::monitored(|| {
+            let mut hs = vec![];
+            for _ in 0..2 {
+                let (lingerers, stop, vchild) = (lingerers.clone(), stop.clone(), vchild.clone());
+                hs.push(std::thread::spawn(move || {
+                    ilog::set_subject(true);
+                    let mut held = vec![];
+                    while !stop.load(SeqCst) && held.len() < 60 {
+                        if let Ok(p) = Popen::create(&[vchild.clone().into_os_string(), "sleep".into(), "30000".into()], subprocess::PopenConfig { detached: true, ..Default::default() }) {
+                            if let Some(pid) = p.pid() {
+                                lingerers.lock().unwrap().push(pid as i32);
+                            }
+                            held.push(p);
+                        }
+                        std::thread::sleep(std::time::Duration::from_micros(200));
+                    }
+                    ilog::set_subject(false);
+                    held
+                }));
+            }
+            let mut bad: Vec<String> = vec![];
+            let mut done = 0;
+            for (a, term) in terms.iter().enumerate() {
+                // cat | cat | <cannot be started>: the first two wait for end-of-file on their stdin
+                let c = |j: usize| stage_exec_raw(&vchild, j, &dir2, a);
+                let pl = Pipeline::from_exec_iter(vec![c(0), c(1), Exec::cmd(dir2.join("no-such-program"))]).stdin(Redirection::Pipe);
+                let r = match *term {
+                    "popen" => pl.popen().map(|_| ()),
+                    "join" => pl.stdout(NullFile).join().map(|_| ()),
+                    "capture" => Pipeline::from_exec_iter(vec![c(0), c(1), Exec::cmd(dir2.join("no-such-program"))]).stdin(vec![b'z'; 1000]).capture().map(|_| ()),
+                    "communicate" => Pipeline::from_exec_iter(vec![c(0), c(1), Exec::cmd(dir2.join("no-such-program"))]).stdin(vec![b'z'; 1000]).communicate().map(|_| ()),
+                    _ => pl.stream_stdout().map(|_| ()),
+                };
+                let snapshot: Vec<i32> = lingerers.lock().unwrap().clone();
+                let gone: Vec<i32> = ilog::quiet(|| snapshot.iter().cloned().filter(|p| !matches!(crate::inspect::proc_state(*p), Some('S') | Some('R') | Some('D'))).collect());
+                if !gone.is_empty() {
+                    bad.push(format!("attempt {} ({}) returned only after unrelated commands {:?} had exited", a, term, gone));
+                    break;
+                }
+                if r.is_ok() {
+                    bad.push(format!("attempt {} ({}) reported success", a, term));
+                }
+                done += 1;
+            }
+            stop.store(true, SeqCst);
+            let held: Vec<Vec<Popen>> = hs.into_iter().map(|h| h.join().unwrap_or_default()).collect();
+            (bad, done, held)
+        });
+        ctx.count("failing_attempts_while_other_threads_spawn", attempts as i64);
+        ctx.distinct(&format!("c14conc|{}|{}", attempts, i));
+        if let Some(c) = &m.cert {
+            ctx.violation("C14/hang/concurrent", "a failing pipeline start deadlocked while other threads were spawning", run::cert_json(c));
+        } else if let Some((bad, _done, held)) = m.result {
+            if let Some(b) = bad.first() {
+                let sig = if b.contains("only after unrelated") { "C14/returned-only-after-unrelated-commands-exited" } else { "C14/no-error/concurrent" };
+                ctx.violation(sig, "with other threads of the caller starting unrelated long-running commands, a pipeline that fails to start did not return when its own commands were dealt with", J::arr_s(&bad));
+            }
+            drop(held);
+        }
+        run::end_case();
     });
     let nr = ctx.n(0, 8000);
     ctx.family("longer", nr, |ctx, rng, _i| {
